@@ -180,12 +180,12 @@ def prove(prop_mods, res, extra_audit_mods=()):
         for path, ln, _, _ in errs:
             mod = path[:-5].replace("/", ".")
             first_err[mod] = min(first_err.get(mod, 10 ** 9), int(ln))
+        dep_broken = any(path[:-5].replace("/", ".") not in prop_mods for path, _, _, _ in errs) or not errs
         for mod, line, name in thms:
-            if name in failed:
+            if name in failed or dep_broken:
+                # an error in a module the theorem files import leaves every property theorem unestablished
                 continue
-            if mod in first_err:
-                # Lean continues after a failed theorem, so later theorems without errors did check
-                pass
+            # Lean continues after a failed theorem, so later theorems of the same file without errors did check
             res.discharged.append(name)
     else:
         res.discharged = list(res.obligations)
